@@ -80,7 +80,7 @@ def main(argv=None):
         if getattr(ctx, "driver_ok", False) or getattr(h, "NEEDS_DRIVER", True) is False:
             h.correspond(ctx)
         else:
-            broken.append("fvdriver-build")
+            broken.append("driver-build")
         corr_broken = [f.name for f in ctx.failures[n_before:] if f.witness is None]
         if broken or corr_broken:
             found_before = sum(1 for f in ctx.failures if f.witness is not None)
